@@ -483,7 +483,10 @@ class SqlEval:
         self.params = params
 
     def now(self):
-        t = fresh_int("db_now")
+        # SQLite evaluates 'now' once per statement: every datetime('now') of one statement is the same instant
+        if getattr(self, "_now", None) is not None:
+            return self._now
+        t = self._now = fresh_int("db_now")
         last = self.I.st.ghost.get("clock")
         if last is not None:
             self.I.st.assume(t >= last)
@@ -596,6 +599,15 @@ class SqlEval:
             a, an = self.expr(e[2], tab, key)
             b, bn = self.expr(e[3], tab, key)
             o = e[1]
+            is_dt = lambda x: x[0] == "call" and x[1] == "datetime"
+            bare = lambda x: x[0] in ("col", "param", "qparam")
+            if o in ("<", "<=", ">", ">=") and ((is_dt(e[2]) and bare(e[3])) or (is_dt(e[3]) and bare(e[2]))):
+                # TEXT comparison of a datetime() result ('YYYY-MM-DD HH:MM:SS') with a bare column / parameter, which the Python
+                # side writes with isoformat() ('YYYY-MM-DDTHH:MM:SS+00:00'): byte-wise, NOT chronological ('T' > ' ' on the same
+                # day).  Nothing is known about its outcome; both sides wrapped in datetime(), or both bare, compare in time order.
+                self.I.st.assumptions.add("a datetime() result compared with a bare TEXT column / parameter is not chronological (outcome unknown)")
+                f = z3.Function("sql_text_cmp_" + {"<": "lt", "<=": "le", ">": "gt", ">=": "ge"}[o], INT, INT, BOOL)
+                return z3.And(z3.Not(an), z3.Not(bn), f(a, b))
             c = {"=": a == b, "!=": a != b, "<>": a != b, "<": a < b, "<=": a <= b, ">": a > b, ">=": a >= b}[o]
             return z3.And(z3.Not(an), z3.Not(bn), c)
         if k == "isnull":
@@ -756,6 +768,7 @@ def execute(I, conn, sql_v: V, params: V):
         _update(I, ev, stmt, tab, crec, eff)
     elif stmt.kind == "delete":
         _delete(I, ev, stmt, tab, crec, eff)
+    eff["now"] = getattr(ev, "_now", None)
     I.st.emit("sql", **eff)
     return cursor
 
@@ -785,6 +798,7 @@ def _select(I, ev, stmt, tab, crec, eff):
         r = fresh_int("row")
         cond = z3.And(z3.Select(tab.exists, r), ev.cond(stmt.where, tab, r))
         crec.meta["rows"] = ("any", r, cond)
+        eff["cand"] = (r, cond)  # the candidate predicate of an unpinned SELECT, over the bound row variable
     crec.meta["tab"] = tab.copy()
     eff["where"] = stmt.where
 
